@@ -210,6 +210,18 @@ def gen_cases(ctx):
                 bonds = None if rng.random() < 0.35 else [rng.choice([1, 2, 3]) for _ in range(n - 1)]
                 cases.append({"kind": "mpsconst", "n": n, "r": r, "d": d, "v": v, "bonds": bonds,
                               "prefix": rng.choice(["site", "x"])})
+    # ---- (a') value level: integer chains, every root (mps_chain_value / pad_bond_value)
+    vr = ctx.subrng("mpsval")
+    for n in range(2, 7):
+        for r in range(n):
+            for rep in range(ctx.n(1, 4)):
+                opens = [[vr.choice([1, 2, 2, 3]) for _ in range(vr.choice([0, 1, 1, 2]))] for _ in range(n)]
+                opens = _limit_dims(vr, opens, 300)
+                pad = [0] * (n - 1) if vr.random() < 0.4 else [vr.choice([0, 1, 2]) for _ in range(n - 1)]
+                cases.append({"kind": "mpsval", "n": n, "r": r, "opens": opens,
+                              "bonds": [vr.choice([1, 2, 2, 3]) for _ in range(n - 1)], "pad": pad,
+                              "padpos": [vr.choice(["end", "end", "front"]) for _ in range(n - 1)],
+                              "seed": vr.randrange(10 ** 9)})
     # ---- (b) star
     star_grid = [(L, C) for L in range(1, 5) for C in range(1, 5)]
     for (L, C) in star_grid:
@@ -513,6 +525,9 @@ def model_lines(case):
         if mode == "leftmost":
             return [f"C19 leftmost {case['n']} {ps}"]
         return [f"C19 mps {case['n']} {case['r']} {ps}"]
+    if k == "mpsval":
+        ps = " ".join(str(len(o)) for o in case["opens"])
+        return [f"C19 mpsrec {case['n']} {case['r']} {ps}"]
     if k == "mpsdirect":
         ps = " ".join(str(len(o)) for o in case["opens"])
         return [f"C19 mpsdirect {case['n']} {case['r']} {ps} | " + " ".join(_direct_tokens(case))]
@@ -617,7 +632,7 @@ def run_case(ctx, case, model_out=None):
     fn = {"mps": _case_mps, "mpsconst": _case_mpsconst, "starconst": _case_starconst, "star": _case_star,
           "forkconst": _case_forkconst, "fork": _case_fork, "binary": _case_binary,
           "starany": _case_any, "forkany": _case_any, "staranyl": _case_any, "forkanyl": _case_any,
-          "mpsdirect": _case_mpsdirect, "magn": _case_magn,
+          "mpsdirect": _case_mpsdirect, "magn": _case_magn, "mpsval": _case_mpsval,
           "fromtensor": _case_fromtensor, "model": _case_model, "gridpairs": _case_gridpairs,
           "nnham": _case_nnham, "exact": _case_exact}[case["kind"]]
     fn(ctx, case, model_out)
@@ -758,6 +773,144 @@ def _case_mps(ctx, case, model_out):
     if probs:
         ctx.oracle_fail(case, f"matrix-product chain ({case['cls']}, n={n}, root={r}, path={case['path']}): "
                         + "; ".join(probs[:4]))
+
+
+# ---- value level: the Lean model evaluates its own binding record on the library's integer tensors
+
+def _mpsval_tensors(case):
+    """integer site tensors (axes left?, right?, open...) and their zero-padded versions"""
+    rng = random.Random(case["seed"])
+    n, bonds, pad, opens = case["n"], case["bonds"], case["pad"], case["opens"]
+    base, padded = [], []
+    for i in range(n):
+        sh = ([bonds[i - 1]] if i > 0 else []) + ([bonds[i]] if i < n - 1 else []) + list(opens[i])
+        size = int(np.prod(sh)) if sh else 1
+        t = np.array([rng.randint(-3, 3) for _ in range(size)], dtype=np.int64).reshape(sh)
+        base.append(t)
+        widths = []
+        if i > 0:
+            e = pad[i - 1]
+            widths.append((0, e) if case["padpos"][i - 1] == "end" else (e, 0))
+        if i < n - 1:
+            e = pad[i]
+            widths.append((0, e) if case["padpos"][i] == "end" else (e, 0))
+        widths += [(0, 0)] * len(opens[i])
+        padded.append(np.pad(t, widths) if widths else t)
+    return base, padded
+
+
+def _parse_mpsrec(s):
+    """`nodes id:lab,..;.. | rec a~b .. | chain a~b ..` -> ([(id, [labels])], [(a, b)], [(a, b)])"""
+    if s in ("bad-op", "none") or " | " not in s:
+        return None
+    try:
+        pn, pr, pc = s.split(" | ")
+        nodes = []
+        for tok in pn[len("nodes "):].split(";"):
+            i, labs = tok.split(":")
+            nodes.append((int(i), [x for x in labs.split(",") if x != ""]))
+
+        def pairs(part, key):
+            body = part[len(key) + 1:]
+            return [] if body == "-" else [tuple(x.split("~")) for x in body.split()]
+        return nodes, pairs(pr, "rec"), pairs(pc, "chain")
+    except ValueError:
+        return None
+
+
+def _einrec(num, dims, free, pairs, leaves):
+    from harness import einsum_corr
+    return einsum_corr.einrec_line(dims, [num[l] for l in free], [(num[a], num[b]) for a, b in pairs],
+                                   [([num[l] for l in labs], arr) for labs, arr in leaves])
+
+
+def _case_mpsval(ctx, case, model_out):
+    from pytreenet.special_ttn.mps import MatrixProductTree
+    from harness import einsum_corr
+    n, r = case["n"], case["r"]
+    base, padded = _mpsval_tensors(case)
+    inputs = [t.astype(float) for t in padded]
+    ctx.count(("mpsval", n, r, case["seed"]), nontrivial=(r != 0 or any(case["pad"])), corr=True)
+    ctx.tally("mpsval", f"n{n}:{'first' if r == 0 else ('last' if r == n - 1 else 'mid')}"
+                        + ("+pad" if any(case["pad"]) else ""))
+    try:
+        mpt = MatrixProductTree.from_tensor_list(inputs, root_site=r)
+        got, order = mpt.completely_contract_tree(to_copy=True)
+    except Exception as e:  # noqa: BLE001
+        ctx.oracle_fail(case, f"mpsval from_tensor_list / full contraction n={n} root={r} raised "
+                              f"{type(e).__name__}: {str(e)[:160]}")
+        return
+    parsed = _parse_mpsrec(model_out[0]) if model_out else None
+    if parsed is None:
+        ctx.corr_fail(case, f"mpsval n={n} r={r}: model answered {model_out}")
+        return
+    nodes, rec, chain = parsed
+    if [f"site{i}" for i, _ in nodes] != list(mpt.nodes.keys()):
+        ctx.corr_fail(case, f"mpsval n={n} r={r}: dict order impl={list(mpt.nodes.keys())} model={[i for i, _ in nodes]}")
+        return
+    # label numbering and dimensions from the LIBRARY's node tensors, legs in the model's (parent, children, open) order
+    num, dims, lib_leaves = {}, [], []
+    for i, labs in nodes:
+        t = np.asarray(mpt.tensors[f"site{i}"])
+        if t.ndim != len(labs) or len(set(labs)) != len(labs):
+            ctx.corr_fail(case, f"mpsval n={n} r={r}: site {i} has {t.ndim} legs, model lists {labs}")
+            return
+        if np.abs(t.imag).max(initial=0) != 0 or np.abs(t.real - np.round(t.real)).max(initial=0) != 0:
+            ctx.oracle_fail(case, f"mpsval n={n} r={r}: tensor of site {i} is no longer integer")
+            return
+        for l, d in zip(labs, t.shape):
+            num[l] = len(dims)
+            dims.append(int(d))
+        lib_leaves.append((labs, np.round(t.real).astype(np.int64)))
+    free = [f"{i}P{k}" for i in range(n) for k in range(len(case["opens"][i]))]
+    in_labs = [([f"{i}L"] if i > 0 else []) + ([f"{i}R"] if i < n - 1 else [])
+               + [f"{i}P{k}" for k in range(len(case["opens"][i]))] for i in range(n)]
+    if set(num) != {l for ls in in_labs for l in ls}:
+        ctx.corr_fail(case, f"mpsval n={n} r={r}: model labels {sorted(num)} are not the input axes")
+        return
+    udims = list(dims)           # dimensions without the padding
+    for i in range(n - 1):
+        udims[num[f"{i}R"]] = udims[num[f"{i + 1}L"]] = case["bonds"][i]
+    lines = [_einrec(num, dims, free, rec, lib_leaves),                              # model's record, library tensors
+             _einrec(num, dims, free, chain, list(zip(in_labs, padded))),           # chain record, input tensors
+             _einrec(num, udims, free, chain, list(zip(in_labs, base)))]            # chain record, unpadded tensors
+    outs = ctx.lean.batch(lines)
+    tabs = [einsum_corr.parse_table(o, "full") for o in outs]
+    if any(t is None for t in tabs):
+        ctx.corr_fail(case, f"mpsval n={n} r={r}: einrec answered {[o[:40] for o in outs]} (record {rec})")
+        return
+    # the library's own full contraction, open legs brought to site order
+    got = np.asarray(got)
+    pos, k = {}, 0
+    for nid in order:
+        i = int(nid[len("site"):])
+        for j in range(len(case["opens"][i])):
+            pos[(i, j)] = k
+            k += 1
+    if k != got.ndim:
+        ctx.oracle_fail(case, f"mpsval n={n} r={r}: full contraction has {got.ndim} legs, expected {k}")
+        return
+    perm = [pos[(i, j)] for i in range(n) for j in range(len(case["opens"][i]))]
+    got = np.transpose(got, perm) if perm else got
+    flat = [complex(x) for x in got.reshape(-1)]
+    if len(flat) != len(tabs[0]) or any(a != b for a, b in zip(flat, tabs[0])):
+        ctx.corr_fail(case, f"mpsval n={n} r={r}: the library's full contraction differs from the model's evaluation "
+                            f"(netValue) of its binding record {rec} on the library's tensors")
+        return
+    probs = []
+    if tabs[0] != tabs[1]:
+        probs.append(f"network built for root {r} (record {rec}) does not evaluate to the chain "
+                     f"sum_bonds prod_i T_i[left,right,open] of the tensors handed in (mps_chain_value)")
+    if tabs[1] != tabs[2]:
+        probs.append("zero padding of the bonds changed the chain value (pad_bond_value)")
+    ref = chain_dense(base)                          # independent: NumPy einsum over the unpadded inputs
+    if [complex(x) for x in np.asarray(ref).reshape(-1)] != flat:
+        probs.append("full contraction differs from the einsum chain of the (unpadded) input tensors")
+    for i in range(n):
+        if not np.array_equal(inputs[i], padded[i]):
+            probs.append(f"input tensor {i} was modified")
+    if probs:
+        ctx.oracle_fail(case, f"mpsval n={n} root={r}: " + "; ".join(probs[:3]))
 
 
 def _case_mpsconst(ctx, case, model_out):
